@@ -18,7 +18,9 @@ REGRESS_TARGET = {"F1": ["C01"], "F2": ["C01"], "F3": ["C04", "C01", "C11"], "F4
 
 # seeded changes whose site belongs to another property than the one the agent was given: the check of the
 # property that owns the site is the one expected to fire (reason recorded in DESIGN.md §8)
-ALT_TARGET = {"C06-D": ["C19"]}   # given for C06; the Python wrapper replaces `data is None` by Python truthiness: a wrapper defect (C19 K1)
+ALT_TARGET = {"C06-D": ["C19"],   # given for C06; the Python wrapper replaces `data is None` by Python truthiness: a wrapper defect (C19 K1)
+              "C02-I": ["C19", "C02"], "C08-I": ["C19", "C08"], "C11-I": ["C19", "C11"],   # changes in py/jsonlogic_rs/__init__.py (and the binding): the wrapper no longer only (de)serialises (C19 K1/K2)
+              "C05-G": ["C18", "C05"]}   # the command validates dead branches before evaluating: the command is no faithful wrapper any more (C18 K5)   # given for C06; the Python wrapper replaces `data is None` by Python truthiness: a wrapper defect (C19 K1)
 
 
 def jobs():
